@@ -297,7 +297,7 @@ Definition op_set_top (s : state) (n : id) (a : toparg) : R :=
 Definition op_set_name (s : state) (e : id) (nm : option str) : R :=
   match nm with
   | Some n => dict_set s e str_NAME (VStr n)
-  | None => if has_key s e str_NAME then dict_del s e str_NAME else dict_set s e str_NAME VNone
+  | None => if has_key s e str_NAME then dict_del s e str_NAME else ret s
   end.
 
 Definition op_del_name (s : state) (e : id) : R :=
